@@ -236,8 +236,10 @@ func (s *shared) runPath(fn *ssa.Function, item workItem, solver *Solver, cfg *C
 			// diverged replay; cannot happen
 		}
 		m := p.model
+		res := "cached"
 		if m == nil {
-			res, mm := solver.Check(true)
+			var mm Model
+			res, mm = solver.Check(true)
 			if res == "sat" {
 				m = mm
 			}
@@ -246,7 +248,7 @@ func (s *shared) runPath(fn *ssa.Function, item workItem, solver *Solver, cfg *C
 			p.viols = append(p.viols, violation{Harness: p.harness, Label: "panic", Decisions: append([]int(nil), p.decisions...),
 				Tape: i.fillTape(m), Model: modelStrings(m), Detail: detail, Panic: true})
 		} else {
-			outcome, detail = "unsupported", "panic path without model: "+detail
+			outcome, detail = "unsupported", "panic path without model (" + res + ", decisions " + decString(p.decisions) + "): " + detail
 		}
 	}
 	return
